@@ -104,6 +104,8 @@ def o6(ctx):
         last = ("cmp", "Eq", rmw, const(1)) in fs
         acq = [a for a in res.log if a["kind"] == "call" and not a["chain"] and ((a.get("atomic") == "load" and "refs" in show(a.get("target"))) or a.get("atomic") == "fence")
                and ordering_has(a.get("ordering"), "acquire") and a["seq"] < e["seq"] and a["seq"] > subs[0]["seq"] and b.dominates(a["bb"], e["bb"])]
+        if ordering_has(subs[0]["ordering"], "acquire") and b.dominates(subs[0]["bb"], e["bb"]) and last:
+            acq = acq or [subs[0]]   # an AcqRel decrement that dominates the free is the acquire itself
         yield Ob(key_of("C12-O6", b.path, "free-on-last:%s" % e["callee"].split("::")[-1]), last, "%s only when fetch_sub returned 1" % e["callee"].split("::")[-1], ctx.loc(e))
         yield Ob(key_of("C12-O7", b.path, "acquire-before:%s" % e["callee"].split("::")[-1]), bool(acq), "an Acquire load/fence on refs dominates %s" % e["callee"].split("::")[-1], ctx.loc(e))
 
